@@ -34,7 +34,7 @@ type Client struct {
 	wg      sync.WaitGroup
 	Sent    int
 	lastPkt []byte
-	ackPkt  []byte // wire bytes of the latest datagram that was echoed on its first transmission
+	ackPkt  []byte            // wire bytes of the latest datagram that was echoed on its first transmission
 	sent    map[uint32][2]int // seq -> (dest, fill) of the first transmission
 }
 
